@@ -21,7 +21,7 @@ RULE_T = ('Model-based histories: a pool of %d fixed module configurations (ever
         'result was computed as the very first library call of a fresh interpreter. Hypothesis draws sequences of up to 40 '
         'operations: construct(cfg, default dtype) (many instances coexist), call(instance, input, no_grad | requires_grad | '
         'requires_grad+backward), a call with an input of the other precision (outcome ignored), concurrent batch of 2..8 calls on a thread pool (same or different instances), load of a filter '
-        'table, lossless dtype round trip of an instance, call of an instance built in the other precision, drop(instance). '
+        'table, lossless dtype round trip of an instance, the caller overwriting the filter arrays it handed to a constructor, call of an instance built in the other precision, drop(instance). '
         'Invariants after every step: arguments and coefficient lists bitwise unchanged (same list, same element identities); '
         'result bitwise equal to the golden; module buffers/parameters bitwise unchanged; tensors returned by the last three calls still hold their values. The interpreter running a shard is never '
         'restarted, so state also carries over between histories. Non-trivial history = >= 2 different shapes through one '
@@ -55,6 +55,11 @@ def _pool():
         P.append({'kind': 'dwt1_fwd', 'wave': 'db3', 'mode': m, 'J': 2})
     for m in ('symmetric', 'periodic', 'periodization'):
         P.append({'kind': 'dwt1_inv', 'wave': 'db3', 'mode': m, 'J': 2})
+    # filters handed over as arrays the caller keeps (and may reuse: operation 'scribble')
+    P.append({'kind': 'dwt1_inv', 'wave': 'db3', 'wave_form': 'tuple', 'mode': 'zero', 'J': 2})
+    P.append({'kind': 'dwt1_inv', 'wave': 'db3', 'wave_form': 'tuple', 'mode': 'symmetric', 'J': 2})
+    P.append({'kind': 'dwt2_inv', 'wave': 'db2', 'wave_form': 'tuple', 'mode': 'periodization', 'J': 2})
+    P.append({'kind': 'dwt2_fwd', 'wave': 'db2', 'wave_form': 'tuple', 'mode': 'periodization', 'J': 2})
     P.append({'kind': 'swt', 'wave': 'db2', 'mode': 'periodization', 'J': 2})
     P.append({'kind': 'swt', 'wave': 'db3', 'mode': 'periodic', 'J': 1})
     for b, q, J, o, ri, extra in [('near_sym_a', 'qshift_a', 3, 2, -1, {}), ('near_sym_a', 'qshift_06', 3, 2, -1, {}),
@@ -137,6 +142,7 @@ def _case(draw, unit):
         st.tuples(st.just('roundtrip'), st.integers(0, 15)),
         st.tuples(st.just('other_dtype'), st.integers(0, n - 1)),
         st.tuples(st.just('wrong_dtype_call'), st.integers(0, 15)),
+        st.tuples(st.just('scribble'), st.integers(0, 15)),
         st.tuples(st.just('drop'), st.integers(0, 15)))
     first = [('construct', 0, 'f32'), ('construct', 2, 'f32')]
     ops = first + draw(st.lists(op, min_size=4, max_size=38))
@@ -243,9 +249,11 @@ def run_case(case):
     def build(oi, dtype):
         ci, ii = own[oi]
         cfg, N, C, rx = cfg_with_input(ci, ii)
-        m, fn = xf.build(cfg, dwtu.tdt(dtype))
+        keep = []
+        m, fn = xf.build(cfg, dwtu.tdt(dtype), keep)
         inst = _Inst(oi, dtype, ci)
         inst.m, inst.fn = m, fn
+        inst.arrays, inst.arr_snap, inst.scribbled = keep, [a.copy() for a in keep], False
         inst.snap = None if m is None else {k: v.clone() for k, v in m.state_dict().items()}
         return inst
 
@@ -315,6 +323,9 @@ def run_case(case):
                 if k not in now or now[k].dtype != v.dtype or not torch.equal(now[k], v):
                     r.fail('module_state_changed', '%s changed the module buffer %s' % (what, k))
                     return False
+        if not inst.scribbled and any(not np.array_equal(a, c) for a, c in zip(inst.arrays, inst.arr_snap)):
+            r.fail('constructor_argument_mutated', '%s: a filter array that was handed to the constructor has been modified' % what)
+            return False
         return True
 
     # all goldens this history can need, each from its own fresh interpreter, started in parallel
@@ -402,6 +413,21 @@ def run_case(case):
                     if k not in now or now[k].dtype != v.dtype or not torch.equal(now[k], v):
                         return r.fail('module_state_changed', '%s: a call with a %s input changed the module buffer %s' %
                                       (what, other, k))
+        elif kind == 'scribble' and insts:
+            # the caller reuses the arrays it handed to a constructor: the module must own copies (checked by the
+            # buffer snapshot right here and by the goldens of all later calls)
+            inst = insts[op[1] % len(insts)]
+            if inst.arrays:
+                for a in inst.arrays:
+                    a[...] = 3.0
+                inst.scribbled = True
+                r.label('constructor_arrays_reused')
+                now = inst.m.state_dict()
+                if not inst.converted:
+                    for k, v in inst.snap.items():
+                        if k not in now or not torch.equal(now[k], v):
+                            return r.fail('module_aliases_constructor_arrays', '%s: overwriting the arrays that were handed to the '
+                                          'constructor changed the module buffer %s' % (what, k))
         elif kind == 'drop' and len(insts) > 1:
             insts.pop(op[1] % len(insts))
     r.nontrivial = any(len(i.shapes) >= 2 for i in insts) and len(used_cfgs) >= 2
